@@ -11,7 +11,7 @@ next term -Gamma(1-v) x^(2v) / (v 2^(v+1)), and the Kolmogorov constant
 import math
 from fractions import Fraction as Fr
 
-from ..common import get_index, nf, check_equal, check_degree, same_value, const_close
+from ..common import get_index, nf, check_equal, check_degree, same_value, const_close, merged_paths, purity_obligations
 from ..interp import Interp, has_unknown
 from ..plf import Rat, Sym, Fn, PowA, find_atoms, rpow
 from ..report import AnalysisError
@@ -25,6 +25,10 @@ PSD_CONST = G(11. / 6) ** 2 / (2 * math.pi ** (11. / 3)) * ((24. / 5) * G(6. / 5
 TOL_688 = 1e-3
 TOL_023 = 2.5e-2
 TOL_EXACT = 1e-12
+
+
+NOT_POINTWISE = {"paths", "setitem", "triu_indices", "tril_indices", "triu", "tril", "T", "flipud", "fliplr", "flip", "roll",
+                 "sort", "loopstore", "loopfinal", "take", "diag_indices", "where3"}
 
 
 def split_vk(v, sep, what):
@@ -83,10 +87,10 @@ def run(rep, tier, root=None):
         return f
 
     def one(f, args):
-        rr = I.returns(f, args)
-        if len(rr) != 1 or not isinstance(rr[0][1], Rat):
-            raise AnalysisError("%s: expected one arithmetic return path" % f.fq)
-        return rr[0][1]
+        v = merged_paths(I, f, args)
+        if not isinstance(v, Rat):
+            raise AnalysisError("%s: does not return an arithmetic value" % f.fq)
+        return v
 
     fC = F("aotools.turbulence.turb", "phase_covariance")
     fD = F("aotools.turbulence.slopecovariance", "structure_function_vk")
@@ -102,6 +106,13 @@ def run(rep, tier, root=None):
         rep.sample({"function": f.fq, "normal_form": nf(v)})
         if has_unknown(v):
             rep.unknown("V0.normal-form", f.fq, "unrecognised constructs in %s" % nf(v, 200), f.where())
+            return
+        npw = [a for a in v.atoms() if isinstance(a, Fn) and a.name in NOT_POINTWISE]
+        if npw:
+            rep.violation("V0.pointwise", f.fq + ": one elementwise law for every input",
+                          "the closed form is not an elementwise function of the separations: it branches on the shape of its input or "
+                          "rearranges elements (%s), so the value for a separation depends on where it sits in the array"
+                          % sorted(set(a.name for a in npw)), f.where(), {"normal_form": nf(v, 600)})
             return
         rep.ok("V0.normal-form", f.fq, nf(v, 150))
 
@@ -240,6 +251,9 @@ def run(rep, tier, root=None):
                   f.where())
         rep.check(pows == {Fr(-11, 6)} and r0deg == {Fr(-5, 3)}, "V5.psd-exponents", f.fq + ": (f^2+L0^-2)^(-11/6) r0^(-5/3)",
                   "PSD exponents: power law %s, r0 %s" % (sorted(pows), sorted(r0deg)), f.where())
+    # ---- V8 the closed forms are functions of their arguments only
+    purity_obligations(rep, ix, [fC, fD, fK, fKL, fKK, ix.func("aotools.functions.karhunenLoeve", "stf_vonKarman_yao")], "V8.pure",
+                       "the same separation array handed to the next formula (or to a second call) is no longer the separations")
     rep.floor("C08 obligations", len(rep.obligations), 25)
 
 
